@@ -303,10 +303,10 @@ theorem path_nodup_match (s : PathState) (L : List Route) (h : PRepr s L) (q : R
   cases hp : x.path <;> simp [hp] at hp1 hp2
 
 theorem path_mem_trace (s : PathState) (q : Req) (r : Route) :
-    r ∈ routesOfList (Path.trace E s q) ↔ r ∈ Path.matchReq E s q := by
+    r ∈ rawRoutesOfList (Path.trace E s q) ↔ r ∈ Path.matchReq E s q := by
   unfold Path.trace Path.matchReq
-  simp only [routesOfList_cons, routesOfList_nil, Trace.routes_mk, TInfo.routes, List.append_nil,
-    List.nil_append, List.mem_append, mem_routesOfList_map]
+  simp only [rawRoutesOfList_cons, rawRoutesOfList_nil, Trace.rawRoutes_mk, TInfo.routes, List.append_nil,
+    List.nil_append, List.mem_append, mem_rawRoutesOfList_map]
   constructor
   · rintro (⟨e, he, hr⟩ | hr)
     · left
@@ -316,8 +316,8 @@ theorem path_mem_trace (s : PathState) (q : Req) (r : Route) :
         exact List.mem_map.mpr ⟨e, List.mem_filter.mpr ⟨he, hm⟩, hr.symm⟩
     · right
       cases hem : ((s.statics.filter (fun e => e.1.1 == q.path)).map Prod.snd).isEmpty
-      · simp only [hem, Bool.false_eq_true, if_false, routesOfList_cons, routesOfList_nil,
-          Trace.routes_mk, TInfo.routes, List.append_nil] at hr
+      · simp only [hem, Bool.false_eq_true, if_false, rawRoutesOfList_cons, rawRoutesOfList_nil,
+          Trace.rawRoutes_mk, TInfo.routes, List.append_nil] at hr
         exact hr
       · simp [hem] at hr
   · rintro (hr | hr)
@@ -330,8 +330,8 @@ theorem path_mem_trace (s : PathState) (q : Req) (r : Route) :
         cases hl : (s.statics.filter (fun e => e.1.1 == q.path)).map Prod.snd with
         | nil => rw [hl] at hr; simp at hr
         | cons _ _ => rfl
-      simp only [hne, Bool.false_eq_true, if_false, routesOfList_cons, routesOfList_nil,
-        Trace.routes_mk, TInfo.routes, List.append_nil]
+      simp only [hne, Bool.false_eq_true, if_false, rawRoutesOfList_cons, rawRoutesOfList_nil,
+        Trace.rawRoutes_mk, TInfo.routes, List.append_nil]
       exact hr
 
 theorem prepr_insert (s : PathState) (L : List Route) (r : Route) (h : PRepr s L)
